@@ -1,4 +1,8 @@
-"""Worker for C13: exercises the selected backend's linear-combination class, modulus and inverse."""
+"""Worker for C13: exercises the selected backend's linear-combination class, modulus and inverse.
+
+Line `L|id|module`: import ANOTHER backend module into this process (what an application that converts between proof
+systems, or a test session, does); the selected backend stays the one under test.  Reply: id|loaded|<modulus the selected
+backend reports now>  or  id|load-failed|<error>."""
 import sys, os, random, copy
 import pysnark.runtime as R
 R.autoprove = False
@@ -70,7 +74,17 @@ def main():
         f = line.rstrip("\n").split("|")
         try:
             if f[0] == "M":
+                p = B.get_modulus()
                 out = f"{f[1]}|{p}|{B.__name__}|{R.backend_name}"
+            elif f[0] == "L":
+                import importlib, io, contextlib
+                try:
+                    with contextlib.redirect_stdout(io.StringIO()), contextlib.redirect_stderr(io.StringIO()):
+                        importlib.import_module(f[2])
+                    p = B.get_modulus()
+                    out = f"{f[1]}|loaded|{p}"
+                except Exception as e:
+                    out = f"{f[1]}|load-failed|{type(e).__name__}: {e}"
             elif f[0] == "E":
                 toks = f[3].split()
                 tree, _ = tokens_to_tree(toks)
